@@ -3,6 +3,7 @@ package main
 // Verification units: one function body against its contract; one lemma.
 
 import (
+	"sort"
 	"fmt"
 	"go/types"
 	"runtime"
@@ -178,6 +179,15 @@ func verifyFunc(p *Program, fn *ssa.Function, fc *FuncContract) (u *UnitResult) 
 	for ri, re := range envs {
 		vo := vc.oblige("vacuity.return", fmt.Sprintf("ret%d", ri+1), name, re.st.reach, "false", "")
 		vo.Vacuity = true
+	}
+	if fc.GuardLock != "" {
+		var parts []string
+		for _, r := range fr.rets {
+			parts = append(parts, implies(r.st.reach, not(fr.heldTerm(r.st))))
+		}
+		if len(parts) > 0 {
+			vc.oblige("guard.released", "", name, "true", and(parts...), "")
+		}
 	}
 	// ghost I/O state (bytes consumed / written, scanner lines): a function that advances it must say so with
 	// "modifies ghost <name>", otherwise its callers would keep believing the old value
@@ -355,4 +365,70 @@ func tryEvalBool(env *Env, e Expr) (g string, ok bool) {
 		}
 	}()
 	return env.evalBool(e), true
+}
+
+// verifyCensus: every call of a guarded method inside the named packages sits in a function whose contract
+// guards that method (a syntactic obligation per call site; "static" back end).
+func verifyCensus(p *Program, cn *Census) *UnitResult {
+	u := &UnitResult{Name: "census(" + cn.PkgPrefix + ")", Kind: "lemma", Props: cn.Props}
+	vc := newVC(p, u.Name)
+	u.VC = vc
+	want := map[string]bool{}
+	for _, n := range cn.Names {
+		want[n] = true
+	}
+	var fns []*ssa.Function
+	for fn := range p.allFuncs {
+		if fn.Pkg == nil || fn.Synthetic != "" {
+			continue
+		}
+		if pre, tree := strings.CutSuffix(cn.PkgPrefix, "/..."); tree {
+			if fn.Pkg.Pkg.Path() != pre && !strings.HasPrefix(fn.Pkg.Pkg.Path(), pre+"/") {
+				continue
+			}
+		} else if fn.Pkg.Pkg.Path() != cn.PkgPrefix {
+			continue
+		}
+		fns = append(fns, fn)
+	}
+	sort.Slice(fns, func(i, j int) bool { return fns[i].String() < fns[j].String() })
+	for _, fn := range fns {
+		if fn.Origin() != nil {
+			continue
+		}
+		if pos := p.Fset.Position(fn.Pos()); strings.HasSuffix(pos.Filename, "_test.go") {
+			continue
+		}
+		for _, b := range fn.Blocks {
+			for _, in := range b.Instrs {
+				ci, ok := in.(ssa.CallInstruction)
+				if !ok {
+					continue
+				}
+				n := callName(ci.Common())
+				if !want[n] {
+					continue
+				}
+				guarded := false
+				root := fn
+				for root.Parent() != nil {
+					root = root.Parent()
+				}
+				if fc := p.contractFor(root); fc != nil && fc.GuardLock != "" {
+					for _, g := range fc.GuardNames {
+						if g == n {
+							guarded = true
+						}
+					}
+				}
+				goal := "true"
+				if !guarded {
+					goal = "false"
+				}
+				o := vc.oblige("census["+n+"]", displayName(fn), u.Name, "true", goal, p.Fset.Position(in.Pos()).String())
+				o.Static = true
+			}
+		}
+	}
+	return u
 }
